@@ -318,9 +318,12 @@ pub fn run_case(env: &Env, case: &Case, oracle: &mut Oracle, mut fill: Option<Pl
         let _ = std::fs::write(h.join(".editorconfig"), "root = true\n[*]\nindent_size = 8\nmax_line_length = 30\n");
         stats.probe("HOME holds settings and ignore files");
     }
-    if let Err(e) = world::materialise(&root, &case.tree) {
+    if let Err(e) = world::materialise(&root, &case.tree).and_then(|_| world::link_up(&root, &case.hardlinks)) {
         result.harness_error = Some(format!("materialise: {e}"));
         return result;
+    }
+    if !case.hardlinks.is_empty() {
+        stats.probe("tree with a hard link (second name of a file)");
     }
     stats.cases += 1;
     // one case in eight: a third of the files carry a modification time in the future
@@ -389,7 +392,10 @@ pub fn run_case(env: &Env, case: &Case, oracle: &mut Oracle, mut fill: Option<Pl
                     inv.debug = 0;
                 }
                 if let Some(ctx) = fill.as_mut() {
-                    plan::add_plan(ctx.rng, ctx.profile, &tree, &mut inv, oracle, events_hint);
+                    // (no hard faults in a world with hard links: a write that fails half-way on one
+                    // name changes what the tool reads under the other, which the model does not follow)
+                    let profile = if !case.hardlinks.is_empty() && ctx.profile == "hard" { "benign" } else { ctx.profile };
+                    plan::add_plan(ctx.rng, profile, &tree, &mut inv, oracle, events_hint);
                 }
                 executed.steps[idx] = Step::Inv(inv.clone());
                 world::settle(&seen_before, fine);
